@@ -426,6 +426,19 @@ func runC19(c *Ctx) {
 					c.violated("C19.send-check", name, fn.Pos(), msg, c.witness(t, len(t.Events)-1)...)
 				}
 			}
+			// a refused send changes nothing about the code that is current: not its text, hash or send time, and not
+			// the verify attempts already used on it (a refusal that resets them re-opens an exhausted code)
+			if !r.isNilConst() {
+				for _, e := range t.Events {
+					if e.Kind == EvStore && e.Addr.Args != nil && e.Addr.Kind == KFieldAddr && e.Addr.Args[0].root().Kind != KAlloc {
+						for _, fv := range []*types.Var{fVerCnt, fCode, fHash, fSet} {
+							if e.Addr.isFieldAddrOf(fv) {
+								fail("a send that is refused writes " + fv.Name() + " of the cached entry: the refusal changes the state of the code that is still current (e.g. gives back its verify attempts)")
+							}
+						}
+					}
+				}
+			}
 			switch {
 			case r.isNilConst():
 				if !notSoon {
